@@ -714,7 +714,7 @@ class World:
             self.vfs_a = MemFilestore()
             self.vfs_b_inner = self.vfs_a  # one shared in-memory store, like one host fs
         else:
-            self.vfs_a = NativeStoreH()
+            self.vfs_a = (getattr(c, "native_cls", None) or NativeStoreH)()
             self.vfs_b_inner = self.vfs_a
         st = self.vfs_a
         st.h_mkdir("src")
@@ -880,17 +880,21 @@ class World:
         rec.qlen_entry = 0 if ent.drained.get(hk, True) else max(rec.pre.nready, 1)
         self.cur_call = rec
         aud = self.audit
-        if aud is not None:
-            aud.enter(rec)
         try:
-            if op == "sm":
-                h.state_machine(pdu)
-            elif op == "put":
-                rec.ret = h.put_request(arg)
-            elif op == "cancel":
-                rec.ret = h.cancel_request(arg)
-            else:
-                raise RuntimeError(op)
+            if aud is not None:
+                aud.enter(rec)
+            try:
+                if op == "sm":
+                    h.state_machine(pdu)
+                elif op == "put":
+                    rec.ret = h.put_request(arg)
+                elif op == "cancel":
+                    rec.ret = h.cancel_request(arg)
+                else:
+                    raise RuntimeError(op)
+            finally:
+                if aud is not None:
+                    aud.exit(rec)
         except Exception as e:  # noqa: BLE001
             rec.exc = ExcInfo(e)
             if rec.exc.is_lib:
@@ -901,7 +905,13 @@ class World:
         if not ent.nodrain:
             for _ in range(10000):
                 try:
-                    holder = h.get_next_packet()
+                    if aud is not None:
+                        aud.enter(rec)
+                    try:
+                        holder = h.get_next_packet()
+                    finally:
+                        if aud is not None:
+                            aud.exit(rec)
                 except Exception as e:  # noqa: BLE001
                     rec.exc = rec.exc or ExcInfo(e)
                     break
@@ -917,8 +927,6 @@ class World:
                     rec.tags = rec.tags + ("PACKFAIL:" + ei.cls,)
                     continue
                 rec.emitted.append(Emitted(raw_out, parse_pdu(raw_out), obj_len))
-        if aud is not None:
-            aud.exit(rec)
         rec.post = Snap(h)
         self.cur_call = None
         clock.cur = None
